@@ -199,10 +199,11 @@ func (e *Evaluator) eval(fn *ssa.Function, args []Val, env Env, depth int) []Out
 				case *ssa.Panic:
 					// treated as no return
 				case ssa.Value:
-					if _, bound := vals[x]; bound {
-						if _, isEnv := env[x]; isEnv {
-							continue
-						}
+					if _, isEnv := env[x]; isEnv {
+						continue
+					}
+					if _, isEnv := env[tupleKey{x, 0}]; isEnv {
+						continue // tuple-valued instruction bound component-wise
 					}
 					vals[x] = e.step(vals, x, pred, env, depth)
 				}
@@ -606,3 +607,7 @@ func wrap(v Val, t types.Type) Val {
 	}
 	return Val{K: Const, C: c}
 }
+
+// TupleKey addresses component idx of a tuple-valued instruction (call,
+// comma-ok lookup, type assertion) for use as an Env key.
+func TupleKey(v ssa.Value, idx int) ssa.Value { return tupleKey{v, idx} }
